@@ -350,7 +350,7 @@ COMPOSE_CELLS = [
     "http://x.com/a%2Fb?a=1%26b=2&c=%3D", "http://x.com/a b?q=a b#a b", "http://x.com/caf%C3%A9/caf%E9?k=caf%C3%A9", "http://x.com/p?q=a+b&r=a%2Bb",
     # redirections: key and target spellings
     "http://x.com/p?url=http%3A%2F%2Fb.com%2Fy", "http://x.com/p?%75rl=http%3A%2F%2Fb.com", "http://x.com/p?redirect%5Fto=http%3A%2F%2Fb.com", "http://x.com/p?url=HTTP%3A%2F%2FB.com%2Fy", "http://x.com/p?u=%2Fy%3Fa%3D1",
-    "http://x.com/p?url=http%3A%2F%2Fb.com%2F%3Fnext%3Dhttp%253A%252F%252Fc.net", "https://x-com.cdn.ampproject.org/c/s/x.com/a%2Eamp", "http://x.com/p?url=Https%3A%2F%2Fb.com",
+    "http://x.com/p?url=http%3A%2F%2Fb.com%2F%3Fnext%3Dhttp%253A%252F%252Fc.net", "https://x-com.cdn.ampproject.org/c/s/x.com/a%2Eamp", "http://x.com/p?url=Https%3A%2F%2Fb.com", "https://www.YouTube.com/redirect?q=x.com%2Fy", "x.com/r?url=/next", "//x.com/r?url=%2Fnext",
     # an escaped delimiter in front of a redirect-like key (see known_findings.json: the key becomes visible once canonicalize_url has decoded the delimiter)
     "http://x.com/a%26url=http%3A%2F%2Fb.com", "http://x.com/p?a=1%3Furl=http%3A%2F%2Fb.com", "http://x.com/p#/a%26url=http%3A%2F%2Fb.com",
     # hosts: punycode / unicode, with the markers normalize_url strips
